@@ -239,7 +239,7 @@ fn main() {
         if let Some(live) = Live::start() {
             for (ci, group) in commands_for_live.chunks(per_conn).enumerate().take(max_conns) {
                 let stream: Vec<Vec<u8>> = group.iter().map(|c| { let mut b = Vec::new(); c.encode(&mut b).unwrap(); b }).collect();
-                let (got, raw) = live.exchange(&stream, group.len(), 3000);
+                let (got, raw) = live.exchange(&stream, group.len(), 20000);
                 rep.count("live_connections");
                 rep.count_n("live_commands", group.len() as u64);
                 rep.case(&format!("live {}", ci), true);
